@@ -182,7 +182,9 @@ def variations(secs):
                 # a producer that indents some lines less than declared
                 # (textwrap.indent leaves blank lines alone; a hand-edited
                 # line): "up to indent spaces are removed"
-                for li in (0, -1):
+                nl_ = s.body.count(spec.nl(s.kind, s.eff))
+                for li in sorted(set(range(min(nl_, 8))) | {-1} if nl_
+                                 else (0,)):
                     for k in sorted(set((1, ind - 1, ind))):
                         V.append(('partial-indent:%d:%d@%d' % (li, k, i),
                                   _mk_partial_indent(i, li, k, ind)))
@@ -284,7 +286,8 @@ def _mk_partial_indent(i, li, k, ind):
         r = spec.split_indented(s.body, spec.nl(s.kind, s.eff),
                                 spec.unit_size(s.eff), ind, sig)
         raw, stripped = list(r[0]), r[1]
-        if not raw or not raw[li].startswith(b' ' * ind) or \
+        if not raw or li >= len(raw) or \
+                not raw[li].startswith(b' ' * ind) or \
                 stripped[li][:1] == b' ':
             return          # (nothing to vary on this line)
         raw[li] = raw[li][k:]
